@@ -437,6 +437,76 @@ theorem invalid_raises_always (calls : List Call) (i : Nat) (s : Spec) (t : List
   rw [(calls_stateless calls i).1 s t h]
   simp [callFmt, invalid_raises s hw]
 
+/-! ## the other constructor and the routes from a formatter's result to a string -/
+
+/-- `CHText.make([chunks])` (neighbours of the same type merged, empty chunks kept): the screen shows
+the texts of the chunks in order, each with the attributes requested for *its* formatter — an empty
+chunk never lends its colour to a neighbour —, default state after every chunk of the result and at
+the end, and stripping gives the concatenated texts -/
+theorem make_shows (parts : List (Spec × List Char)) (cells : List (Char × Attr))
+    (hw : wantedCells parts = some cells) (ht : ∀ p ∈ parts, NoEsc p.2) :
+    ∃ cs, mkChunks cfg parts = .ok cs ∧
+      interp (render (mergeChunks cs)) = some (cells, Attr.default) ∧
+      (∀ k, ∃ shown, interp (render ((mergeChunks cs).take k)) = some (shown, Attr.default)) ∧
+      strip cls fin (render (mergeChunks cs)) = parts.flatMap Prod.snd := by
+  rw [sgr_std]
+  obtain ⟨gs, hgs, hgood, hcells⟩ := mkChunks_good parts cells hw ht
+  have hstr := mkChunks_inv (fun p q => Strippable cls fin p ∧ Strippable cls fin q) strippable parts _ hgs ht
+  refine ⟨_, hgs, ?_, ?_, ?_⟩
+  · cases gs with
+    | nil => simp [mergeChunks, render, interp, run, cellsOf] at hcells ⊢; exact hcells
+    | cons g gs =>
+      have := mergeGo_shows gs (fun x hx => hgood x (by simp [hx])) g.1 g.2 (hgood g (by simp)) []
+      simp only [List.map_cons, mergeChunks]
+      simpa [interp, run, prepend, cellsOf, ← hcells] using this
+  · intro k
+    apply render_resets
+    have hall : AllChunks (fun p q => ∃ a, PreShows p a ∧ SufResets q a) (gs.map Prod.fst) := by
+      intro c hc
+      obtain ⟨g, hg, rfl⟩ := List.mem_map.mp hc
+      obtain ⟨h1, h2, h3⟩ := hgood g hg
+      exact ⟨⟨g.2, h1, h2⟩, h3⟩
+    have hm : AllChunks (fun p q => ∃ a, PreShows p a ∧ SufResets q a) (mergeChunks (gs.map Prod.fst)) := by
+      cases hgl : gs.map Prod.fst with
+      | nil => intro c hc; simp [mergeChunks] at hc
+      | cons c cs =>
+        rw [hgl] at hall
+        exact mergeGo_inv _ c cs (hall c (by simp)) (fun x hx => hall x (by simp [hx]))
+    intro c hc
+    exact hm c (List.mem_of_mem_take hc)
+  · obtain ⟨hall, hplain⟩ := hstr
+    have hm : AllChunks (fun p q => Strippable cls fin p ∧ Strippable cls fin q) (mergeChunks (gs.map Prod.fst)) ∧
+        plain (mergeChunks (gs.map Prod.fst)) = plain (gs.map Prod.fst) := by
+      cases hgl : gs.map Prod.fst with
+      | nil => exact ⟨by intro c hc; simp [mergeChunks] at hc, rfl⟩
+      | cons c cs =>
+        rw [hgl] at hall
+        exact ⟨mergeGo_inv _ c cs (hall c (by simp)) (fun x hx => hall x (by simp [hx])),
+          by simp [mergeChunks, plain_mergeGo, plain]⟩
+    have := Sgr.strip_render cls fin _ hm.1 []
+    rw [← hplain, ← hm.2]
+    simpa [strip_nil] using this
+
+/-- every route from `x = fmt(text)` to a string — `str(x)`, `'%s' % x` (the chunk itself) or
+`f"{x}"`, `format(x, spec)`, `x + s`, `s + x` (through `CHText(x)`) — with whatever the route writes
+to the left and to the right of the chunk (fill characters of the format spec, the added `str`):
+the text is shown with the requested attributes, **everything around it with default attributes**,
+the terminal ends in default state, and stripping gives left + text + right. A chunk's own
+`__format__` is the `CHText` one of the one-chunk text: the same `routeStr`. -/
+theorem route_shows (s : Spec) (a : Attr) (t l r : List Char) (rt : Route)
+    (h : wantedAttr s = some a) (ht : NoEsc t) (hl : NoEsc l) (hr : NoEsc r) :
+    ∃ c, mkChunk cfg s t = .ok c ∧
+      interp (routeStr l r c rt) =
+        some (l.map (fun x => (x, Attr.default)) ++ t.map (fun x => (x, a)) ++
+              r.map (fun x => (x, Attr.default)), Attr.default) ∧
+      strip cls fin (routeStr l r c rt) = l ++ t ++ r := by
+  rw [sgr_std]
+  obtain ⟨p, q, hpq, hp, hq⟩ := mkSeq_shows s a h
+  obtain ⟨hsp, hsq⟩ := strippable s p q hpq
+  refine ⟨⟨p, t, q⟩, by simp [mkChunk, hpq, Except.map], ?_, ?_⟩
+  · exact routeStr_shows l r ⟨p, t, q⟩ a rt ⟨hp, hq, ht⟩ hl hr
+  · exact routeStr_strip cls fin l r ⟨p, t, q⟩ rt hsp hsq hl hr ht
+
 /-! ## bytes -/
 
 /-- `ColorBytes` emits the same sequences as `ColorFmt`: all their characters are ASCII, so the
